@@ -44,6 +44,8 @@ MUT = [
             "        if self.__style_names is None:\n            self.__style_names = {style.name for style in self.get_styles()}\n        current = self.__style_names\n        idx = 0\n        while True:\n            name = f\"{base}_{idx}\"\n            if name in current:\n                idx += 1\n                continue\n            current.add(name)\n            return name")]),
     ("merge-duplicate-searched-in-destination-only", "cross-container mutation (seeded C13-4)",
      [(DOC, "                duplicate = part.get_style(family, stylename)", "                duplicate = dest.get_style(family, stylename)")]),
+    ("font-face-default-flag-dropped", "flag-combination mutation (seeded C13-6: font-face + default=True must go to styles.xml)",
+     [(DOC, "            if default:\n                existing, style_container = self._insert_style_get_font_face_default(", "            if default and automatic:\n                existing, style_container = self._insert_style_get_font_face_default(")]),
     ("rewrite-auto-name-comprehension", "behaviour-preserving rewrite",
      [(DOC, '''        max_index = 0
         for existing_style in styles:
